@@ -198,6 +198,7 @@ func gObjs(l []slip.Object) string {
 type gen struct {
 	r    *common.Rng
 	hist func(string)
+	safe bool // only the kinds and shapes inside the guard (so that large values stay inside it)
 }
 
 var plainSyms = []string{"a", "b", "foo", "bar-baz", "x1", "*star*", "list", "quote", "car", "nil-ish", "+plus+", "fixnum", "vector", "symbol"}
@@ -209,7 +210,52 @@ var charPool = []rune{'a', 'Z', '0', ' ', '(', ')', '"', '\\', ';', '\'', '\n', 
 var fixPool = []int64{0, 1, -1, 7, 42, -100, 65536, 9223372036854775807, -9223372036854775808, 1234567890123}
 var dblPool = []float64{0, 1, -1, 2.5, 1e20, 1.0 / 3.0, -0.125, 1e-7, 123456.789}
 
+var safeChars = []rune{'a', 'Z', '0', '~', 'λ', 'q'}
+var safeStrs = []string{"", "abc", "two words", "q\"uote", "back\\slash", "line\nbreak", "tab\there", "(paren", ";semi", "'", "a  b", "λ", "ends with space "}
+
 func (g *gen) atom() slip.Object {
+	if g.safe {
+		switch x := g.r.Intn(100); {
+		case x < 30:
+			g.hist("atom:fixnum")
+			if g.r.Chance(50) {
+				return slip.Fixnum(common.Pick(g.r, fixPool))
+			}
+			return slip.Fixnum(int64(g.r.Intn(2000)) - 1000)
+		case x < 36:
+			g.hist("atom:bignum")
+			b := new(big.Int)
+			b.SetString(common.Pick(g.r, []string{"9223372036854775808", "-123456789012345678901234567890"}), 10)
+			return (*slip.Bignum)(b)
+		case x < 42:
+			g.hist("atom:ratio")
+			return slip.NewRatio(int64(2*g.r.Intn(20))-19, 2)
+		case x < 50:
+			g.hist("atom:double")
+			return slip.DoubleFloat(common.Pick(g.r, dblPool))
+		case x < 54:
+			g.hist("atom:single")
+			return slip.SingleFloat(common.Pick(g.r, dblPool))
+		case x < 60:
+			g.hist("atom:character")
+			return slip.Character(common.Pick(g.r, safeChars))
+		case x < 76:
+			g.hist("atom:string")
+			return slip.String(common.Pick(g.r, safeStrs))
+		case x < 84:
+			g.hist("atom:keyword")
+			return slip.Symbol(common.Pick(g.r, keySyms))
+		case x < 88:
+			g.hist("atom:type-symbol")
+			return slip.Symbol(common.Pick(g.r, []string{"fixnum", "list", "vector", "symbol"}))
+		case x < 94:
+			g.hist("atom:nil")
+			return nil
+		default:
+			g.hist("atom:t")
+			return slip.True
+		}
+	}
 	switch x := g.r.Intn(100); {
 	case x < 22:
 		g.hist("atom:fixnum")
@@ -280,6 +326,125 @@ func (g *gen) selfAtom() slip.Object {
 			continue
 		}
 		return a
+	}
+}
+
+// qdata: data that may stand inside a quote in safe mode (vector / array contents)
+func (g *gen) qdata(depth int) slip.Object {
+	if depth <= 0 || g.r.Chance(50) {
+		if g.r.Chance(20) {
+			g.hist("atom:symbol")
+			// also symbols that head special layouts of the pretty printer: inside a quote they are plain data
+			return slip.Symbol(common.Pick(g.r, []string{"a", "b", "foo", "bar-baz", "x1", "*star*", "quote", "let", "lambda", "defun", "cond", "progn", "defvar", "setq"}))
+		}
+		a := g.atom()
+		if b, ok := a.(*slip.Bignum); ok && (*big.Int)(b).IsInt64() {
+			return slip.Fixnum(1)
+		}
+		return a
+	}
+	n := 1 + g.r.Intn(4)
+	l := make(slip.List, n)
+	for i := range l {
+		l[i] = g.qdata(depth - 1)
+	}
+	switch g.r.Intn(5) {
+	case 0:
+		return slip.NewVector(n, slip.TrueSymbol, nil, l, true)
+	case 1:
+		tl := g.qdata(0)
+		if tl == nil {
+			tl = slip.Fixnum(3)
+		}
+		return append(l, slip.Tail{Value: tl})
+	}
+	return l
+}
+
+func (g *gen) safeValue(depth int) slip.Object {
+	if depth <= 0 || g.r.Chance(30) {
+		return g.atom()
+	}
+	switch x := g.r.Intn(100); {
+	case x < 40:
+		g.hist("kind:list")
+		n := 1 + g.r.Intn(5)
+		if g.r.Chance(15) {
+			n = 8 + g.r.Intn(14)
+		}
+		l := make(slip.List, n)
+		for i := range l {
+			l[i] = g.safeValue(depth - 1)
+		}
+		return l
+	case x < 50:
+		g.hist("kind:dotted")
+		n := 1 + g.r.Intn(4)
+		l := make(slip.List, n)
+		for i := range l {
+			l[i] = g.safeValue(depth - 1)
+		}
+		tl := g.atom()
+		if tl == nil {
+			tl = slip.Fixnum(3)
+		}
+		return append(l, slip.Tail{Value: tl})
+	case x < 66:
+		g.hist("kind:vector")
+		n := 1 + g.r.Intn(5)
+		l := make(slip.List, n)
+		for i := range l {
+			l[i] = g.qdata(depth - 1)
+		}
+		return slip.NewVector(n, slip.TrueSymbol, nil, l, true)
+	case x < 74:
+		g.hist("kind:array")
+		dims := []int{1 + g.r.Intn(3), 1 + g.r.Intn(3)}
+		if g.r.Chance(30) {
+			dims = append(dims, 1+g.r.Intn(2))
+		}
+		size := 1
+		for _, d := range dims {
+			size *= d
+		}
+		a := slip.NewArray(dims, slip.TrueSymbol, nil, nil, true)
+		for i := 0; i < size; i++ {
+			a.MajorSet(i, g.qdata(depth-2))
+		}
+		return a
+	case x < 90:
+		g.hist("kind:hash-table")
+		h := slip.HashTable{}
+		n := g.r.Intn(4)
+		for i := 0; i < n; i++ {
+			var k slip.Object
+			switch g.r.Intn(5) {
+			case 0:
+				k = slip.Symbol(common.Pick(g.r, []string{"a", "b", "foo", "bar-baz"}))
+			case 1:
+				k = slip.String(common.Pick(g.r, safeStrs[:6]))
+			case 2:
+				k = slip.Fixnum(g.r.Intn(10))
+			case 3:
+				k = slip.Symbol(common.Pick(g.r, keySyms))
+			default:
+				k = slip.DoubleFloat(2.5)
+			}
+			v := g.atom()
+			if b, ok := v.(*slip.Bignum); ok && (*big.Int)(b).IsInt64() {
+				v = slip.Fixnum(2)
+			}
+			if g.r.Chance(20) {
+				v = slip.NewVector(2, slip.TrueSymbol, nil, slip.List{slip.Fixnum(1), slip.Symbol("a")}, true)
+			}
+			h[k] = v
+		}
+		return h
+	default:
+		g.hist("kind:lambda")
+		srcs := []string{"(lambda (x) (1+ x))", "(lambda (x y) (list x y))", "(lambda () 3)", "(lambda (x &optional (y 2)) (+ x y))",
+			"(lambda (a &rest r) (cons a r))", "(lambda (x) (let ((y (* x x))) (if (> y 10) (list 'big y) (list 'small y))))"}
+		return common.EvalIn(slip.NewScope(), common.Pick(g.r, srcs)).Value
 	}
 }
 
